@@ -9,6 +9,7 @@ from mirsym.interp import Panic, Inconclusive
 from mirsym.values import *
 from mirsym.models.util import items, deref, variant, payload, some, none, unit
 from native import oracle
+from harness.server_state import rstring
 import checks.c13 as c13mod      # registers the shared replay predicates (c13_differs)
 
 
@@ -156,14 +157,17 @@ def role_name_(v):
     return {None: None, 0: 'primary', 1: 'replica'}[v]
 
 
-def o1_infer(chk, prog, stmts, label):
-    """stmts: list of abstract statements: a query dict, or 'other' (any non-Query statement, symbolic kind)."""
-    name = 'O1-infer-' + label
+def o1_infer(chk, prog, stmts, label, sharding=False):
+    """stmts: list of abstract statements: a query dict, or 'other' (any non-Query statement, symbolic kind).
+    sharding: automatic_sharding_key is configured; what the shard inference finds in each statement (no key / shard k / an error) is the
+    solver's choice -- the ROLE decision must not depend on it (the callers forward the message whatever infer returns)."""
+    name = 'O1-infer-' + label + ('-autoshard' if sharding else '')
     descr = [('other' if s == 'other' else sql_query(s)) for s in stmts]
     ob = chk.begin(name, 'QueryRouter::infer on the abstract syntax tree of %r (statement kinds of `other` symbolic over all non-Query '
                    'sqlparser::Statement variants), arbitrary previous role and primary-reads setting: Primary iff some statement is not a plain '
-                   'read, else Replica / any according to primary reads; independent of the previous role' % (descr,),
-                   {'statements': descr})
+                   'read, else Replica / any according to primary reads; independent of the previous role%s' % (descr,
+                   '; automatic_sharding_key configured, the outcome of the shard inference per statement (none / shard k / error, e.g. statements for different shards) chosen by the solver' if sharding else ''),
+                   {'statements': descr, 'automatic_sharding': sharding})
     fn_new = prog.lookup('QueryRouter::new')[0]
     infer = prog.lookup('QueryRouter::infer')[0]
     ip = chk.interp(prog, name)
@@ -171,9 +175,33 @@ def o1_infer(chk, prog, stmts, label):
     stidx = [d for n, d, f in prog.src.enums['sqlparser::Statement'] if n == 'StartTransaction'][0]
     nvar = len(prog.src.enums['sqlparser::Statement'])
 
+    if sharding:
+        from mirsym.models.util import ok as _ok, err as _err
+
+        def shard_choice(ip2, tag):
+            k = ip2.choose(3, tag)
+            return None if k == 0 else BV(64, k - 1)
+
+        def on_write(c, slf, q):
+            c.ip.env['writes_seen'] = c.ip.env.get('writes_seen', 0) + 1
+            if c.ip.choose(2, 'shard_inference_fails') == 1:
+                # (reachable e.g. with automatic_sharding_key = "*.id" and an UPDATE that assigns the key column)
+                c.ip.env['failed_write'] = c.ip.env['writes_seen']
+                return _err(c.ip, c.ip.make_enum('Error', 'QueryRouterParserError', [rstring('x')]))
+            s = shard_choice(c.ip, 'write_shard')
+            return _ok(c.ip, none(c.ip) if s is None else some(c.ip, s))
+
+        def on_select(c, slf, q):
+            s = shard_choice(c.ip, 'select_shard')
+            return none(c.ip) if s is None else some(c.ip, s)
+        ip.overrides += [(re.compile(r'QueryRouter::infer_shard_on_write$'), on_write), (re.compile(r'QueryRouter::infer_shard$'), on_select)]
+
     def harness(ip_):
         qr = ip_.call_function(fn_new, [])
         ps = getf(prog, qr, 'QueryRouter', 'pool_settings')
+        if sharding:
+            setf(prog, ps, 'PoolSettings', 'automatic_sharding_key', some(ip_, rstring('data.id')))
+            setf(prog, ps, 'PoolSettings', 'shards', BV(64, 3))
         setf(prog, ps, 'PoolSettings', 'query_parser_read_write_splitting', BV(1, 1))
         setf(prog, ps, 'PoolSettings', 'query_parser_enabled', BV(1, 1))
         pool_pre = sym_bool(ip_, 'pool_primary_reads')
@@ -211,6 +239,18 @@ def o1_infer(chk, prog, stmts, label):
                 return m.eval(x.z(), True).as_long()
             sql = '; '.join(('BEGIN' if ev(kinds[i]) == stidx else 'INSERT INTO t VALUES (1)') if s == 'other' else sql_query(s) for i, s in enumerate(stmts))
             settings = {'shards': 1, 'query_parser_enabled': True, 'query_parser_read_write_splitting': True, 'primary_reads_enabled': bool(ev(pool_pre))}
+            if sharding:
+                # natively: statements that name different sharding-key values, so that the inference really finds two shards
+                fw = ip_.env.get('failed_write')
+                parts, nw = [], 0
+                for i, s in enumerate(stmts):
+                    if s == 'other':
+                        nw += 1
+                        parts.append(('UPDATE data SET id = 9 WHERE id = %d' if nw == fw else 'UPDATE data SET v = 3 WHERE id = %d') % (i + 1))
+                    else:
+                        parts.append('SELECT * FROM data WHERE id = %d' % (i + 1))
+                sql = '; '.join(parts)
+                settings.update({'shards': 3, 'automatic_sharding_key': '*.id' if fw else 'data.id'})
             pre = {}
             if ev(prev.discr) == 1:
                 pre['active_role'] = role_name_(ev(prev.variants['Some'][0].discr))
@@ -341,7 +381,7 @@ def main(chk):
         'parser and run through the real parse+infer natively. The role filter (both PartialEq impls) is decided over its full domain.')
     chk.assumptions += [
         'SQL -> AST is sqlparser (trusted); every abstract shape used is validated against the real parser on this run',
-        'activity-based routing and automatic sharding are off in these obligations',
+        'activity-based routing is off; automatic sharding is on in four pair obligations, with the shard inference itself (infer_shard / infer_shard_on_write: which key a statement names) replaced by solver-chosen outcomes',
         'handle-level part: sessions that pick a role with SET SERVER ROLE (which switches the SQL parser off for the session); sessions whose statements are parsed (sqlparser itself) are covered by the infer obligations only',
     ]
     prog = chk.program('on', with_sqlparser=True)
@@ -364,6 +404,9 @@ def main(chk):
         for a, b, c in itertools.product(reduced[:5] + ['other'], repeat=3):
             tasks.append((o1_infer, (prog, [a, b, c], 'triple%d' % n)))
             n += 1
+    for a, b in ((plain, 'other'), ('other', plain), ('other', 'other'), (plain, plain)):
+        tasks.append((o1_infer, (prog, [a, b], 'pair%d' % n, True)))
+        n += 1
     chk.parallel(_dispatch, tasks)
     # "after SET SERVER ROLE every following transaction runs on a server of that role until changed": Client::handle executed on sessions
     # that choose a role and then run several transactions (simple and extended), on a pool of a primary and a replica -- also when the pool
